@@ -1327,9 +1327,13 @@ impl Parser {
             Some((_, Token::Operator(Operator::Comma))) => {
                 // [a, ...
                 while self.skipped(Operator::Comma)? {
+                    if self.current_is(Operator::BarackRight) {
+                        break; // a trailing comma: [a, b,]
+                    }
                     index.push(Some(self.parse_next_level_expr()?));
                 }
-                Ok((Some(Operator::Comma), index))
+                let op = (index.len() > 1).then_some(Operator::Comma);
+                Ok((op, index))
             }
             // [:a:... [a:...
             Some((_, Token::Operator(Operator::Colon))) => {
